@@ -56,5 +56,37 @@ def run(ctx, mod):
         for k, v in sorted(res.items()):
             if v in ("MISSED", "broken"):
                 print("SELFTEST-MISS: mutant %s of %s was not reported (%s)" % (k, ctx.prop, v))
+    # (5) E3 compile-fail witnesses (type-level part of the who-may-write rules)
+    wmap = {"C09": ("AreaTypeIsPrivate", "StateIsPrivate", "FetchIsCrateInternal"), "C10": ("AreaTypeIsPrivate", "StateIsPrivate"),
+            "C11": ("FinishedIsPrivate", "LoopControlIsPrivate"), "C12": ("HooksArePrivate",), "C04": ("LoopControlIsPrivate",)}
+    if ctx.prop in wmap and F.REPO == "/repo":
+        res = run_witnesses()
+        ck.cov["witnesses"] = {k: v for k, v in res.items() if any(k.startswith(w) for w in wmap[ctx.prop])}
+        for k, v in sorted(res.items()):
+            if any(k.startswith(w) for w in wmap[ctx.prop]):
+                if v == "ok":
+                    ck.ok("%s.witness" % ctx.prop, k)
+                else:
+                    ck.violation("%s.witness" % ctx.prop, k, "witness %s" % v,
+                                 what="external code can now reach state the property relies on being crate-private "
+                                      "(or the compiling twin broke: the witness path is wrong)")
     if hasattr(mod, "thorough"):
         mod.thorough(ctx)
+
+
+def run_witnesses():
+    """cargo +nightly test --doc on tools/axwitness: {test name: ok|failed}"""
+    import re
+    import shutil
+    d = os.path.join(F.VERIF, "tools", "axwitness")
+    shutil.copyfile(os.path.join(F.REPO, "Cargo.lock"), os.path.join(d, "Cargo.lock"))
+    env = dict(os.environ)
+    env["CARGO_NET_OFFLINE"] = "true"
+    env["CARGO_TARGET_DIR"] = os.path.join(F.CACHE, "witness-target")
+    r = subprocess.run(["cargo", "+nightly", "test", "--doc", "--offline"], cwd=d, env=env, capture_output=True, text=True)
+    out = {}
+    for m in re.finditer(r"test src/lib.rs - (\w+) \(line (\d+)\)( - compile fail)?( - compile)? \.\.\. (\w+)", r.stdout):
+        out["%s@%s%s" % (m.group(1), m.group(2), ":compile_fail" if m.group(3) else ":twin")] = "ok" if m.group(5) == "ok" else "failed"
+    if not out:
+        raise F.BrokenRun("witness crate did not run: " + r.stderr[-1500:])
+    return out
